@@ -358,6 +358,10 @@ class EditDistance(SequenceEdit):
                 if self.__edits is None:
                     assert len(self.edit_matrix) == len(self.to_seq) + 1
                     assert len(self.edit_matrix[0]) == len(self.from_seq) + 1
+                    # Every other cell was fully tightened when its diagonal was processed; the last cell must be
+                    # final, too, before its cost is added to the total and frozen by self._cleanup()
+                    while self.edit_matrix[-1][-1].tighten_bounds():
+                        pass
                     row, col = len(self.to_seq), len(self.from_seq)
                     while row > 0 or col > 0:
                         prev_row, prev_col, edit = self._best_match(row, col)
